@@ -14,14 +14,19 @@ PLANS = {
     "C16": [("A", "rsa", 90, 1800), ("A", "ec", 40, 600),
             ("A", "ecdsa", 32, 500)],
     "C17": [("A", "rsa", 90, 1800), ("A", "ec", 40, 600),
-            ("A", "ecdsa", 32, 500), ("A", "ec_big", 3, 40)],
+            ("A", "ecdsa", 32, 500), ("A", "ec_big", 3, 40),
+            ("A", "ec_default", 0, 2)],
     "C07": [("A", "rsa", 90, 1800), ("A", "ec", 40, 600),
-            ("A", "ecdsa", 32, 500)],
+            ("A", "ecdsa", 32, 500), ("A", "rsa_large", 2, 24),
+            ("A", "ecdsa_large", 2, 24)],
     "C18": [("A", "rsa", 110, 2200), ("A", "ec", 48, 700),
-            ("A", "ecdsa", 40, 600), ("A", "ec_big", 3, 40)],
+            ("A", "ecdsa", 40, 600), ("A", "ec_big", 3, 40),
+            ("A", "ec_default", 0, 2), ("A", "rsa_large", 1, 8),
+            ("A", "ecdsa_large", 1, 8)],
     "C13": [("C", "driver", 6000, 200000), ("C", "e2e", 120, 2500)],
     "C10": [("B", "tiny", 1500, 40000), ("B", "named", 500, 12000),
-            ("A", "ec", 40, 700), ("A", "ec_big", 4, 60)],
+            ("A", "ec", 40, 700), ("A", "ec_big", 4, 60),
+            ("A", "ec_default", 0, 2)],
 }
 BUDGET = {"quick": 170.0, "thorough": 2100.0}
 
@@ -39,17 +44,28 @@ def spec(prop, tier, seed, args):
     raise core.HarnessError(
         "property %s is not claimed by this machinery (see MANIFEST "
         "not_applicable)" % prop)
-  jobs = []
+  directed, lanes = [], []
   for engine, profile, nq, nt in PLANS[prop]:
     if args.profile and args.profile != profile:
       continue
     eng = runner.engine_module(engine)
     n = args.runs if args.runs is not None else (nq if tier == "quick" else nt)
-    for label, plan in eng.directed_plans(prop, profile):
-      jobs.append(runner.make_job(engine, prop, profile, tier, seed, -1,
-                                  plan=plan, label=label))
-    for i in range(n):
-      jobs.append(runner.make_job(engine, prop, profile, tier, seed, i))
+    if n or nq or tier == "thorough":
+      for label, plan in eng.directed_plans(prop, profile):
+        directed.append(runner.make_job(engine, prop, profile, tier, seed, -1,
+                                        plan=plan, label=label))
+    lanes.append([runner.make_job(engine, prop, profile, tier, seed, i)
+                  for i in range(n)])
+  # interleave the profiles proportionally, so that a wall-clock budget cut
+  # thins every profile instead of dropping the last one
+  jobs = list(directed)
+  total = sum(len(l) for l in lanes)
+  pos = [0] * len(lanes)
+  for _ in range(total):
+    k = min((k for k in range(len(lanes)) if pos[k] < len(lanes[k])),
+            key=lambda k: (pos[k] + 1) / (len(lanes[k]) + 1))
+    jobs.append(lanes[k][pos[k]])
+    pos[k] += 1
   return {"jobs": jobs, "budget_s": BUDGET[tier], "plans": PLANS[prop]}
 
 
